@@ -47,6 +47,13 @@ FIXED += [
   'a link entry with an absolute target pointing into dst was accepted although Unpack documents and the property requires refusal'),
 ]
 
+FIXED += [
+ ("C05", "relative-link-entry-leaves-archive-root", "fix: treat a relative link that climbs above the root as external even if it re-enters by the root's name",
+  'Pack stored sub/up -> ../../src/a.txt as a link; at its own archive position it climbs above the archive root and Unpack refuses the slug'),
+ ("C19", "worker-hang", "fix: detect directory cycles when dereferencing symlinks in Pack",
+  'Pack with DereferenceSymlinks never returned on a link to the parent of the source directory (or any external directory leading back to a directory being walked)'),
+]
+
 OPEN = [
  ("C04", "dotdot-after-symlink-component",
   'a link whose target applies ".." after a component that is itself a symlink in dst (e.g. "d/l -> .." together with "m -> d/l/../secret", in either order) is accepted because targets are validated lexically; the operating system resolves m to a location outside dst. No entry can be written through such a link any more (see the fixed C01 entries), but the link itself remains'),
